@@ -241,18 +241,25 @@ class ActionLink(Action):
             raise ValueError("Multiple source keys requires a compute function.")
 
         if self.apply_on == "parse":
+
+            def overlaps(key, others):
+                return any(key == k or key.startswith(k + ".") or k.startswith(key + ".") for k in others)
+
             # Check source
             link_actions = self.parser._links_group._group_actions
             existing_targets = {a.target[0] for a in link_actions}
-            if target in existing_targets:
-                raise ValueError(f'Target "{target}" is already a target of another link.')
-            for src in [source] if isinstance(source, str) else source:
+            if overlaps(target, existing_targets):
+                raise ValueError(f'Target "{target}" is already a target of another link or overlaps with one.')
+            sources = [source] if isinstance(source, str) else source
+            for src in sources:
                 if src in existing_targets:
                     raise ValueError(f'Source "{src}" not allowed since it is the target of another link.')
             # Check target
             existing_sources = {s[0] for a in link_actions for s in a.source if a.apply_on == "parse"}
-            if target in existing_sources:
-                raise ValueError(f'Target "{target}" not allowed since it is the source of another link.')
+            if overlaps(target, existing_sources):
+                raise ValueError(f'Target "{target}" not allowed since it overlaps with the source of another link.')
+            if overlaps(target, sources):
+                raise ValueError(f'Target "{target}" not allowed since it overlaps with its own source.')
 
     def __call__(self, *args, **kwargs):
         source = ", ".join(s[0] for s in self.source)
